@@ -1,7 +1,7 @@
 (* C04 - Rowid lookup finds a row iff it exists.  Property theorems only;
    proofs are in Proofs/. *)
-From SQ Require Import Model.Base Model.Record Model.Payload Model.Btree Model.Low Spec.Flat
-     Proofs.SearchP Proofs.BtreeP Proofs.BtreeMinP Proofs.LowP.
+From SQ Require Import Model.Base Model.Record Model.Payload Model.Btree Model.Low Model.High Spec.Flat
+     Proofs.SearchP Proofs.BtreeP Proofs.BtreeMinP Proofs.LowP Proofs.HighP.
 From Coq Require Import Sorted.
 
 (* the from-key descent of a table b-tree, generic in the tree *)
@@ -30,3 +30,18 @@ Theorem C04_lookup : forall pg op npages root rowid p l,
   end.
 Proof. exact table_rowid_lookup. Qed.
 Print Assumptions C04_lookup.
+
+(* the high level SelectRowid (and PKSelect on an INTEGER PRIMARY KEY, which calls it): that
+   lookup, with the row mapped - found rows are delivered once, a missing row is no row and no
+   error, a failing lookup is that error *)
+Theorem C04_select_rowid : forall pg op npages S (cb : row -> S -> flow * S) sc ms table columns rowid ci root s,
+  master pg op npages = (Continue, ms) -> s_worowid sc = false ->
+  to_ci_rowid sc columns = Ok ci -> find_root ms name_table table = Ok root ->
+  h_select_rowid pg op npages S cb sc table rowid columns s =
+  match table_rowid pg op npages root rowid with
+  | Ok None => (Continue, s)
+  | Ok (Some rec) => cb (to_row rowid ci rec) s
+  | Err e => (Fail e, s)
+  end.
+Proof. exact select_rowid_lookup. Qed.
+Print Assumptions C04_select_rowid.
